@@ -74,10 +74,11 @@ func (R *Repository) AddCRL(crlLocations *core.CRLLocations, chains *core.Certif
 		}
 	}
 
-	entry.entryLock.Lock()
-	defer entry.entryLock.Unlock()
-	if entry.LastUpdateSignatureVerifyFailed {
-		//check if the chain contains a new valid signing cert
+	entry.entryLock.RLock()
+	lastUpdateSignatureVerifyFailed := entry.LastUpdateSignatureVerifyFailed
+	entry.entryLock.RUnlock()
+	if lastUpdateSignatureVerifyFailed {
+		//check if the chain contains a new valid signing cert (takes the entry lock itself)
 		R.tryUpdateSignatureCertFromChain(entry, chains)
 	}
 	return crlAdded, nil
